@@ -217,6 +217,7 @@ def pmap(fn, items, jobs: int = NCPU, chunk: int = None, init=None):
     if not items:
         return []
     _WORK_FN = fn
+    scratch_root()        # create in the parent so forked workers share it and it is removed at exit
     if jobs <= 1 or len(items) < 4:
         if init is not None:
             init()
